@@ -185,6 +185,20 @@ func (e *ErrEngine) base(v ssa.Value, at *ssa.BasicBlock, env errEnv, depth int,
 		}
 		return CAll
 	case *ssa.Call:
+		if x.Call.IsInvoke() && x.Call.Method.Name() == "Err" && IsNamed(x.Call.Value.Type(), "context", "Context") {
+			// trusted contract: Context.Err is monotone (once non-nil it stays non-nil), so a second
+			// ctx.Err() in a region guarded by `ctx.Err() != nil` on the same context is non-nil.
+			for _, r := range Referrers(x.Call.Value) {
+				o, ok := r.(*ssa.Call)
+				if !ok || o == x || !o.Call.IsInvoke() || o.Call.Method.Name() != "Err" || o.Call.Value != x.Call.Value {
+					continue
+				}
+				if e.refine(o, x.Block(), CAll)&CNil == 0 {
+					return CEOF | CNonNil
+				}
+			}
+			return CAll
+		}
 		return e.call(x, -1, env, depth, seen)
 	}
 	return CAll
